@@ -473,6 +473,7 @@ def h6_pipeline(maxlen=2, timeout=200, part=None, **kw):
         except Exception as e:
             ex.require(False, "PDFStream.get_data raised %s: %s" % (type(e).__name__, e), attrs=repr(attrs))
         ex.require(got == expect, "filters/predictors not applied in chain order with their own parameters: got %r, expected %r" % (got, expect), attrs=repr(attrs))
+        ex.require(st.get_data() == got, "reading the stream a second time gives other bytes", attrs=repr(attrs))
 
     def conc(m, info):
         return {"attrs": info["attrs"], "note": "structure built from choices; replayed by re-running the same harness concretely"}
@@ -687,7 +688,10 @@ def long_check(ci, pi, si):
     import pdfminer.pdftypes as pt
     attrs, payload, exp = long_case(LONG_CODECS[ci], LONG_PATTERNS[pi], LONG_SIZES[si])
     try:
-        got = pt.PDFStream(attrs, payload).get_data()
+        st = pt.PDFStream(attrs, payload)
+        got = st.get_data()
+        if st.get_data() != got:
+            return "%s over %d bytes of %r: reading the stream a second time gives other bytes" % (LONG_CODECS[ci], LONG_SIZES[si], LONG_PATTERNS[pi])
     except Exception as e:
         return "%s over %d bytes of %r raised %s: %s" % (LONG_CODECS[ci], LONG_SIZES[si], LONG_PATTERNS[pi], type(e).__name__, str(e)[:200])
     if got != exp:
